@@ -27,6 +27,7 @@ PROPERTY ReopenResolves
 PROPERTY CopyCopiesPartner
 PROPERTY EditIsLocal
 PROPERTY RefusedIsNoop
+PROPERTY ValidEditsAccepted
 INVARIANT ExportState
 ACTION_CONSTRAINT ExportTrans
 CHECK_DEADLOCK FALSE
